@@ -21,6 +21,10 @@ HEADER = 'From Coq Require Import String.\nFrom GV.Model Require Import Rulegen.
 TYPES = ['AWS::S3::Bucket', 'AWS::EC2::Instance', 'AWS::IAM::Role']
 PROPS = ['Name', 'Size', 'Enabled', 'Zone', 'Tags', 'Policy', 'Ports']
 PLAIN = ['a', 'prod', 'us-west-2b', 'x y', 'AWS', 'v1.2', 'héllo', '10', 'true', 'back\\slash', '^\\d+$', 'C:\\dir\\file', "single'quote", 'tab\there', '', 'null', '8080', '1.5', '[1]', '{}', '# x']
+# long values with a comma followed by a blank inside: several of them for one property give an IN [...] clause longer than any
+# line-wrapping threshold, whose separators must not be confused with the commas inside the strings
+LONG = ['Orders, billing and invoices, archived monthly', 'first, second, third and the rest of them', 'a, b',
+        'eu-west-1a, eu-west-1b, eu-west-1c, eu-central-1a', 'nothing special but quite long all the same, really']
 TRICKY = [' padded ', 'quote"inside', 'trailing\\', ' lead', 'trail ', '"']
 
 
@@ -56,12 +60,14 @@ def gen_value(rng, kind, tricky):
 
 
 def gen_template(rng, k):
-    kind = rng.choice(['plain', 'plain', 'plain', 'nonuniform', 'tricky', 'mixed'])
+    kind = rng.choice(['plain', 'plain', 'plain', 'nonuniform', 'tricky', 'mixed', 'long'])
+    if k % 9 == 4:
+        kind = 'long'
     ntypes = rng.choice([1, 2, 3])
     types = rng.sample(TYPES, ntypes)
     layout = {t: {p: rng.choice(['str', 'str', 'int', 'bool', 'list', 'map']) for p in rng.sample(PROPS, rng.choice([1, 2, 3]))} for t in types}
     res = {}
-    for i in range(rng.choice([1, 2, 3, 4, 5])):
+    for i in range(rng.choice([1, 2, 3, 4, 5]) if kind != 'long' else rng.choice([3, 4, 5])):
         t = rng.choice(types)
         props = {}
         for p, vk in layout[t].items():
@@ -70,6 +76,8 @@ def gen_template(rng, k):
             if kind == 'mixed' and rng.random() < 0.4:
                 vk = 'list' if vk in ('str', 'int', 'bool') else 'int'
             props[p] = gen_value(rng, vk, kind == 'tricky')
+            if kind == 'long' and vk == 'str':
+                props[p] = LONG[(i + len(p)) % len(LONG)] if rng.random() < 0.9 else rng.choice(PLAIN)
         r = {'Type': t}
         if props or rng.random() < 0.8:
             r['Properties'] = props
